@@ -21,8 +21,8 @@ theorem SizedIx.len {max : Nat} {ix : TIndex} (s : SizedIx max ix) : ix.t2i.leng
   have := congrArg List.length s.keys
   simpa using this
 
-theorem ensureIndex_sized {max : Nat} {ix : TIndex} (h : Heap.Heap) (t : Term) (s : SizedIx max ix) :
-    SizedIx max (ix.ensureIndex max h t).2.1 := by
+theorem ensureIndex_sized {max : Nat} {ix : TIndex} (own : Bool) (h : Heap.Heap) (t : Term) (s : SizedIx max ix) :
+    SizedIx max (ix.ensureIndex own max h t).2.1 := by
   simp only [TIndex.ensureIndex]
   split
   · exact s
@@ -35,7 +35,7 @@ theorem ensureIndex_sized {max : Nat} {ix : TIndex} (h : Heap.Heap) (t : Term) (
       · simp only [List.length_append, List.length_cons, List.length_nil, Nat.zero_add]
         omega
 
-theorem insert_max (h : Heap.Heap) (s : HStore) (q : Quad) : (s.insert h q).2.1.max = s.max := by
+theorem insert_max (own : Bool) (h : Heap.Heap) (s : HStore) (q : Quad) : (s.insert own h q).2.1.max = s.max := by
   unfold HStore.insert
   simp only
   split
@@ -102,7 +102,7 @@ other operation hands indexes on unchanged or creates empty ones. -/
 
 structure IxPred (P : Nat → TIndex → Prop) : Prop where
   empty : ∀ max, P max {}
-  ensure : ∀ max ix (h : Heap.Heap) (t : Term), P max ix → P max (ix.ensureIndex max h t).2.1
+  ensure : ∀ (own : Bool) max ix (h : Heap.Heap) (t : Term), P max ix → P max (ix.ensureIndex own max h t).2.1
 
 /-- `Clone::clone` as the source defines it (`ck`) preserves `P` -/
 def ClonePred (P : Nat → TIndex → Prop) (ck : CloneKind) : Prop :=
@@ -143,8 +143,8 @@ theorem WP.del {w : World} (s : WP P w) (n : Nat) : WP P (w.del n) := by
   simp only [World.del, List.mem_filter] at he
   exact s e he.1
 
-theorem ensureAllH_pred (ip : IxPred P) (max : Nat) (names : List GName) (cs : List Nat) (h : Heap.Heap) {ix : TIndex}
-    (acc : List (Nat × Nat)) (s : P max ix) : P max (ensureAllH max names cs h ix acc).2.1 := by
+theorem ensureAllH_pred (ip : IxPred P) (own : Bool) (max : Nat) (names : List GName) (cs : List Nat) (h : Heap.Heap) {ix : TIndex}
+    (acc : List (Nat × Nat)) (s : P max ix) : P max (ensureAllH own max names cs h ix acc).2.1 := by
   induction cs generalizing h ix acc with
   | nil => exact s
   | cons c cs ih =>
@@ -152,7 +152,7 @@ theorem ensureAllH_pred (ip : IxPred P) (max : Nat) (names : List GName) (cs : L
     split
     · exact ih h _ s
     · next t _ =>
-      have h1 := ip.ensure max _ h t s
+      have h1 := ip.ensure own max _ h t s
       split
       · next h' ix' heq => rw [heq] at h1; exact h1
       · next h' ix' i heq => rw [heq] at h1; exact ih h' _ h1
@@ -182,9 +182,9 @@ theorem WP.step (ip : IxPred P) (ck : CloneKind) {w : World} (s : WP P w) (op : 
     | none => exact s
     | some st =>
       have hst := s _ (get_mem hg)
-      have key : P (st.insert w.heap q).2.1.max (st.insert w.heap q).2.1.ix := by
-        rw [insert_max, (insert_ix w.heap st q).2]
-        exact ensureAllH_pred ip _ _ _ _ _ hst
+      have key : P (st.insert w.own w.heap q).2.1.max (st.insert w.own w.heap q).2.1.ix := by
+        rw [insert_max, (insert_ix w.own w.heap st q).2]
+        exact ensureAllH_pred ip _ _ _ _ _ _ hst
       simp only
       split
       · exact s
@@ -197,7 +197,7 @@ theorem WP.step (ip : IxPred P) (ck : CloneKind) {w : World} (s : WP P w) (op : 
     | none => exact s
     | some st =>
       have hst := s _ (get_mem hg)
-      have key := ip.ensure st.max _ w.heap t hst
+      have key := ip.ensure w.own st.max _ w.heap t hst
       simp only
       split
       · next h' ix' heq => rw [heq] at key; exact (s.with_heap h').set key
@@ -273,6 +273,7 @@ theorem WP.step (ip : IxPred P) (ck : CloneKind) {w : World} (s : WP P w) (op : 
     split
     · exact s.with_heap _
     · exact s
+  | via own => exact s
 
 theorem WP.run (ip : IxPred P) (ck : CloneKind) {w : World} (s : WP P w) (ops : List Op)
     (hc : ops.all cloneFreeOp = true ∨ ClonePred P ck) : WP P (World.run ck w ops) := by
@@ -293,7 +294,7 @@ end
 
 /-! ### instance 1: the size discipline, under either `Clone` -/
 
-theorem sizedPred : IxPred SizedIx := ⟨SizedIx.empty, fun _ _ h t s => ensureIndex_sized h t s⟩
+theorem sizedPred : IxPred SizedIx := ⟨SizedIx.empty, fun own _ _ h t s => ensureIndex_sized own h t s⟩
 
 theorem sizedClone (ck : CloneKind) : ClonePred SizedIx ck := fun _ h _ _ _ s hc => cloneIndex_sized ck h s hc
 
@@ -348,85 +349,18 @@ theorem keyAt_of_sized {max : Nat} {ix : TIndex} (s : SizedIx max ix) {i : Nat} 
 
 /-! ### instance 2: key `j` and entry `j` belong together (clone-free histories, either `Clone`) -/
 
-theorem Pointwise.snoc {α β : Type} {R : α → β → Prop} {l : List α} {l' : List β} {a : α} {b : β}
-    (p : Pointwise R l l') (r : R a b) : Pointwise R (l ++ [a]) (l' ++ [b]) := by
-  refine ⟨by simp [p.1], fun i x y hx hy => ?_⟩
-  by_cases hi : i < l.length
-  · have hi' : i < l'.length := by have := p.1; omega
-    rw [List.getElem?_append_left hi] at hx
-    rw [List.getElem?_append_left hi'] at hy
-    exact p.2 i x y hx hy
-  · have hge : l.length ≤ i := Nat.le_of_not_lt hi
-    have hge' : l'.length ≤ i := by have := p.1; omega
-    rw [List.getElem?_append_right hge] at hx
-    rw [List.getElem?_append_right hge'] at hy
-    have hlen : i - l.length = i - l'.length := by have := p.1; omega
-    rw [hlen] at hx
-    cases hk : i - l'.length with
-    | zero =>
-      rw [hk] at hx hy
-      simp only [List.getElem?_cons_zero, Option.some.injEq] at hx hy
-      subst hx; subst hy; exact r
-    | succ k => rw [hk] at hx; simp at hx
-
-theorem copyRefs_length (h : Heap.Heap) (rs : List StrRef) : (copyRefs h rs).2.length = rs.length := by
-  induction rs generalizing h with
-  | nil => rfl
-  | cons r rs ih => simp only [copyRefs, List.length_cons]; rw [ih]
-
-theorem copyRefs_allOwned (h : Heap.Heap) (rs : List StrRef) : AllOwned (copyRefs h rs).2 := by
-  induction rs generalizing h with
-  | nil => intro r hr; simp [copyRefs] at hr
-  | cons r0 rs ih =>
-    intro r hr
-    simp only [copyRefs, List.mem_cons] at hr
-    rcases hr with rfl | hr
-    · rfl
-    · exact ih _ r hr
-
-theorem copyTerm_sameShape (h : Heap.Heap) (t : TermRef) : t.sameShape (copyTerm h t).2 = true := by
-  induction t generalizing h with
-  | atom k ss => simp [copyTerm, TermRef.sameShape, copyRefs_length]
-  | triple s p o ihs ihp iho => simp only [copyTerm, TermRef.sameShape, ihs, ihp, iho, Bool.and_self]
-
-theorem copyTerm_allOwned (h : Heap.Heap) (t : TermRef) : AllOwned (copyTerm h t).2.refs := by
-  induction t generalizing h with
-  | atom k ss => simpa [copyTerm, TermRef.refs] using copyRefs_allOwned h ss
-  | triple s p o ihs ihp iho =>
-    simp only [copyTerm]
-    exact allOwned_triple (ihs _) (ihp _) (iho _)
-
-/-- what `ensure_index` puts into `i2t` for the key `k` has the key's shape and borrows only from it -/
-theorem asSimple_paired (h : Heap.Heap) {k : TermRef} (ho : AllOwned k.refs) :
-    k.sameShape (asSimple h k).2 = true ∧ insideKey k (asSimple h k).2 = true := by
-  cases k with
-  | atom kd ss =>
-    refine ⟨by simp [asSimple, TermRef.sameShape], ?_⟩
-    simp only [asSimple, insideKey, TermRef.refs, List.all_eq_true, List.mem_map, Bool.or_eq_true, beq_iff_eq,
-      List.contains_eq_mem, decide_eq_true_eq]
-    rintro r ⟨r0, h0, rfl⟩
-    exact Or.inr (mem_ownedIds.2 ⟨r0, h0, ho r0 h0, rfl⟩)
-  | triple s p o =>
-    refine ⟨by simp only [asSimple, TermRef.sameShape, copyTerm_sameShape, Bool.and_self], ?_⟩
-    have hall : AllOwned (asSimple h (.triple s p o)).2.refs := by
-      simp only [asSimple]
-      exact allOwned_triple (copyTerm_allOwned _ _) (copyTerm_allOwned _ _) (copyTerm_allOwned _ _)
-    simp only [insideKey, List.all_eq_true, Bool.or_eq_true]
-    intro r hr
-    exact Or.inl (Or.inl (hall r hr))
-
 /-- the `j`-th key has the shape of the `j`-th entry and owns every buffer the entry borrows -/
 def PairedIx (_max : Nat) (ix : TIndex) : Prop :=
   Pointwise (fun (e : TermRef × Nat) (t : TermRef) => e.1.sameShape t = true ∧ insideKey e.1 t = true) ix.t2i ix.i2t
 
 theorem pairedPred : IxPred PairedIx := by
-  refine ⟨fun _ => Pointwise.nil _, fun max ix h t s => ?_⟩
+  refine ⟨fun _ => Pointwise.nil _, fun own max ix h t s => ?_⟩
   simp only [TIndex.ensureIndex]
   split
   · exact s
   · split
     · exact s
-    · exact Pointwise.snoc s (asSimple_paired _ (allocTerm_spec h t).owned)
+    · exact Pointwise.snoc s (asSimple_paired _ (allocTerm_spec own h t).owned)
 
 /-- with both disciplines the audit vector is clean: for every entry the key mapped to it is found, has
 its shape, and contains its pointers -/
@@ -441,6 +375,6 @@ theorem audit_clean_of {max : Nat} {ix : TIndex} (s : SizedIx max ix) (p : Paire
 
 theorem bothPred : IxPred (fun max ix => SizedIx max ix ∧ PairedIx max ix) :=
   ⟨fun max => ⟨sizedPred.empty max, pairedPred.empty max⟩,
-   fun max ix h t s => ⟨sizedPred.ensure max ix h t s.1, pairedPred.ensure max ix h t s.2⟩⟩
+   fun own max ix h t s => ⟨sizedPred.ensure own max ix h t s.1, pairedPred.ensure own max ix h t s.2⟩⟩
 
 end SophiaProofs.HeapP
